@@ -59,7 +59,7 @@ def install_round_budget():
                         LAST_STEP[0] = (self, prev_state)
                         if STEP_LOG[0] is not None:
                             out = _orig(self, profile, prev_state, store_states)
-                            STEP_LOG[0].append((self, profile, prev_state, out))
+                            STEP_LOG[0].append((self, profile, prev_state, out, self.election_states[-1] if self.election_states else None))
                             n = self.__dict__.get("_vk_rounds", 0) + 1
                             self.__dict__["_vk_rounds"] = n
                             if n > 2 * len(self._profile.candidates) + 4:
